@@ -430,6 +430,11 @@ def compare(ctx, seq, recs, outs):
 
 
 FIXED_SEQS = [
+    # re-construction from a list whose first entry fills the ceiling, followed by 20000 entries below half an ulp of the
+    # running sum: the constructor must refuse at the second entry (per-spend minimum / check) — a bulk total of the whole
+    # list absorbs them and records an exact sum above ceiling * (1 + 1e-12)   (seeded change C04-14)
+    (1.0, 0.0, 0.0, [(1.0, 0.0)] + [(1e-16, 0.0)] * 20000, [("total",)]),
+    (1.0, 0.0, 0.0, [(0.5, 0.0), (0.5, 0.0)] + [(4e-17, 0.0)] * 30000, [("total",), ("rebuild",)]),
     (1.0, 0.5, 0.01, [], [("spend", 0.25, 0.1), ("check", 1e200, 0.9), ("total",), ("spend", 1e200, 0.9), ("total",), ("rebuild",)]),
     (float("inf"), 1.0, 0.0, [], [("spend", 1e200, 0.0), ("total",), ("slack", 0.5), ("check", 1e200, 0.0), ("remaining", 2)]),
     (1e-170, 0.5, 0.1, [], [("spend", 5e-171, 0.0)] * 6 + [("total",)]),          # open known finding SIG_UNDERFLOW
